@@ -1,5 +1,6 @@
 import Poulpy.Driver.Util
 import Poulpy.Model.Avx
+import Poulpy.Model.AvxQ120
 /-
 Driver of the C10 lane model.  Wire format (same tokens as `pvh avx`, see harness/src/avx_kern.rs):
   `id avx kern be=<fref|favx|nref|navx> op=<name> [b=] [lsh=] [k=] [p=] [ow=0|1] x=.. [a=..] [c=..]`
@@ -69,8 +70,51 @@ def kern128 (ts : List String) : String :=
     let o := if isAvx ts then sliceBigAvx op l else sliceBigRef op l
     outcome o (fun r => show128 r ++ "|" ++ (if cin.isEmpty then "-" else show128 cin))
 
+/-- `q120 op=<consts|c_from_b|from_znx64|mul_bbc> be=.. [x=..] [y=..] [h= s2l= s2h= (per prime, 4 values)]`:
+NTT120 integer kernels, one request = `nn` coefficients × 4 prime lanes (flattened as the Rust slices). -/
+def q120 (ts : List String) : String :=
+  let op := (kv ts "op").getD ""
+  let avx := isAvx ts
+  let qs := Avx.Q120.Q
+  let nth := fun (l : List Nat) (k : Nat) => l.getD k 0
+  if op == "consts" then
+    "q=" ++ showNats qs ++ " crt=" ++ showNats Avx.Q120.CRT_CST
+  else if op == "c_from_b" then
+    -- x: 4·nn u64 (q120b); answer: 8·nn u32 (q120c)
+    let x := kvNats ts "x"
+    let out := (x.zipIdx).flatMap (fun (v, i) =>
+      let k := i % 4
+      let q := nth qs k
+      let r := if avx then Avx.Q120.cFromBLane v q (nth Avx.Q120.MU k) (nth Avx.Q120.POW32 k) else Avx.Q120.cFromBRef v q
+      [r.1, r.2])
+    showNats out
+  else if op == "from_znx64" then
+    -- x: nn i64; answer: 4·nn u64
+    let x := kvInts ts "x"
+    let mask := (kv ts "mask").map int!
+    let out := x.flatMap (fun v =>
+      let v := match mask with
+        | some m => (BitVec.ofInt 64 v &&& BitVec.ofInt 64 m).toNat
+        | none => (BitVec.ofInt 64 v).toNat
+      (List.range 4).map (fun k =>
+        if avx then Avx.Q120.bFromZnx64Lane v (nth Avx.Q120.OQ k) else Avx.Q120.bFromZnx64Ref v (nth Avx.Q120.OQ k)))
+    showNats out
+  else if op == "mul_bbc" then
+    -- x: 4·ell u64 (q120b, as the u32 view of the Rust), y: 4·ell u64 (q120c lanes r | rshift << 32); h, s2l, s2h from BbcMeta
+    let x := kvNats ts "x"
+    let y := kvNats ts "y"
+    let h := kvNat ts "h"
+    let s2l := kvNats ts "s2l"
+    let s2h := kvNats ts "s2h"
+    let out := (List.range 4).map (fun k =>
+      let l := ((x.zip y).zipIdx).filterMap (fun (xy, i) => if i % 4 == k then some xy else none)
+      if avx then Avx.Q120.bbcAvx h (nth s2l k) (nth s2h k) l else Avx.Q120.bbcRef h (nth s2l k) (nth s2h k) l)
+    showNats out
+  else "bad-op"
+
 def handle (ts : List String) : String :=
   match ts with
+  | "q120" :: rest => q120 rest
   | "kern" :: rest =>
     let op := (kv rest "op").getD ""
     if op.startsWith "nfc_" || op.startsWith "i128_" then kern128 rest else kern64 rest
